@@ -7,15 +7,16 @@
    (filteringReader + decoder of encoding/basex/stream.go, model/BxStream.v, compared
    call by call with basex.NewDecoder): what it delivers is a prefix of the one-shot
    decoding of the source's bytes, it ends cleanly only when that decoding succeeds and
-   then has delivered all of it, and good input is always decoded completely.  The composed five-layer armored
-   stack (with go-codec's reader and the basex decoder) is PARTIAL: it is covered by
-   the C13 campaign (16 fragmentations + exhaustive two-cut splits per input), not
-   by a theorem.  Write side and buffer bounds are proved for every stream encoder. *)
+   then has delivered all of it, and good input is always decoded completely.  The composed armored read stack
+   (punctuatedReader, framedDecoderStream, base-X decoder = NewArmor62DecoderStream) refines the
+   one-shot dearmor (theorems C13_armor_stream_...).  go-codec's reader on top of these stacks is PARTIAL:
+   it is covered by the C13 campaign (16 fragmentations + exhaustive two-cut splits per input),
+   not by a theorem.  Write side and buffer bounds are proved for every stream encoder. *)
 From Coq Require Import List NArith ZArith.
 From Coq.Strings Require Import Byte.
 From SP Require Import Bytes Params Crypto Errors BaseX Encodings Chunker Armor Streams Rand Sign Encrypt Signcrypt
-     ChunkerProofs SignProofs EncryptProofs SigncryptProofs StreamProofs BxStream BxStreamProofs.
-From SP Require Import GoLang GoLang2 GoAst GoAstStreams GoAstProofs GoAstProofs2 GoAstProofs3 GoAstProofs4c.
+     ChunkerProofs SignProofs EncryptProofs SigncryptProofs StreamProofs BxStream BxStreamProofs ArmorStream ArmorStreamProofs.
+From SP Require Import GoLang GoLang2 GoAst GoAstStreams GoAstProofs GoAstProofs2 GoAstProofs3 GoAstProofs4c GoAstProofs4d.
 From Coq Require String.
 Import String.StringSyntax.
 Import ListNotations.
@@ -187,6 +188,73 @@ Print Assumptions C13_bx_stream_complete.
 Print Assumptions C13_bx_stream_source_error.
 Print Assumptions C13_bx_stream_shipped.
 
+(* ---------------- the composed armored read stack ---------------- *)
+(* model/ArmorStream.v: punctuatedReader under framedDecoderStream (armor.go) under the base-X stream
+   decoder = saltpack.NewArmor62DecoderStream, compared call by call with it (ad_sched).  For EVERY source
+   (any fragmentation, data delivered with or without its error), every caller buffer sizes and every
+   checker type: what the stack delivers is a prefix of the payload the text dearmors to (Armor.dearmor, the
+   one-shot denotation C11's theorems are about); it ends with EOF only when the source ended with EOF and
+   the text dearmors, and then the WHOLE payload has been delivered; a text that dearmors is always decoded
+   completely; a failing source never looks like a clean end; the model's out-of-fuel value is never
+   reached.  (Without checkers the stream does not look at the characters of the frame sentences, which the
+   one-shot Armor62Open does afterwards through Frame.GetHeader/GetFooter: that is the second disjunct.) *)
+Theorem C13_armor_stream_delivers_prefix (chk : option Z) (s : source) (sizes : list nat) (d : dearmored) :
+  src_wf s -> pos_sizes sizes ->
+  dearmor chk (fst (src_denote s)) = Ok d ->
+  bprefix (fst (ad_drain chk sizes s)) (da_payload d).
+Proof. exact (ad_drain_prefix chk s sizes d). Qed.
+
+Theorem C13_armor_stream_clean_end (chk : option Z) (s : source) (sizes : list nat) (out : bytes) :
+  src_wf s -> pos_sizes sizes ->
+  ad_drain chk sizes s = (out, Some EOF) ->
+  snd (src_denote s) = EOF /\
+  ((exists d, dearmor chk (fst (src_denote s)) = Ok d /\ da_payload d = out) \/
+   (chk = None /\ dearmor None (fst (src_denote s)) = Err ErrBadFrame)).
+Proof. exact (ad_drain_clean_end chk s sizes out). Qed.
+
+Theorem C13_armor_stream_clean_end_checked (typ : Z) (s : source) (sizes : list nat) (out : bytes) :
+  src_wf s -> pos_sizes sizes ->
+  ad_drain (Some typ) sizes s = (out, Some EOF) ->
+  snd (src_denote s) = EOF /\
+  exists d, dearmor (Some typ) (fst (src_denote s)) = Ok d /\ da_payload d = out.
+Proof. exact (ad_drain_clean_end_checked typ s sizes out). Qed.
+
+Theorem C13_armor_stream_complete (chk : option Z) (s : source) (sizes : list nat) (d : dearmored) :
+  src_wf s -> pos_sizes sizes ->
+  snd (src_denote s) = EOF ->
+  dearmor chk (fst (src_denote s)) = Ok d ->
+  (length (da_payload d) + length (fst (src_denote s)) + length (src_segs s) + 8 <= length sizes)%nat ->
+  ad_drain chk sizes s = (da_payload d, Some EOF).
+Proof. exact (ad_drain_complete chk s sizes d). Qed.
+
+Theorem C13_armor_stream_source_error (chk : option Z) (s : source) (sizes : list nat) (out : bytes) (x : err) :
+  src_wf s -> pos_sizes sizes ->
+  snd (src_denote s) <> EOF ->
+  ad_drain chk sizes s = (out, Some x) ->
+  x <> EOF.
+Proof. exact (ad_drain_source_error chk s sizes out x). Qed.
+
+Theorem C13_armor_stream_modelled (chk : option Z) (s : source) (sizes : list nat) (out : bytes) (x : err) :
+  src_wf s -> pos_sizes sizes ->
+  snd (src_denote s) <> Unmodelled ->
+  ad_drain chk sizes s = (out, Some x) ->
+  x <> Unmodelled.
+Proof. exact (ad_drain_modelled chk s sizes out x). Qed.
+
+(* the decoder written over an abstract reader is, over a source, the decoder of BxStream.v *)
+Theorem C13_generic_decoder_is_bx_stream (e : encoding) (sizes : list nat) (s : source) (fuel : nat) :
+  src_wf s -> (src_fuel s <= fuel)%nat ->
+  gbd_trace e source src_read fuel sizes (gbd_init source s) = bd_trace e sizes (bd_init s).
+Proof. exact (gbd_source_agrees e sizes s fuel). Qed.
+
+Print Assumptions C13_armor_stream_delivers_prefix.
+Print Assumptions C13_armor_stream_clean_end.
+Print Assumptions C13_armor_stream_clean_end_checked.
+Print Assumptions C13_armor_stream_complete.
+Print Assumptions C13_armor_stream_source_error.
+Print Assumptions C13_armor_stream_modelled.
+Print Assumptions C13_generic_decoder_is_bx_stream.
+
 (* ---------------- SOURCE TIE of the two reader adaptors ---------------- *)
 (* The terms f_saltpack_chunkReader_Read and f_saltpack_punctuatedReader_Read are generated on every run from
    the Go syntax trees of /repo (gen/GoAstStreams.v).  Under the Go semantics of model/GoLang2.v they compute
@@ -226,6 +294,24 @@ Theorem C13_source_punctuatedReader_invariant (s : source) (n : nat) (st : pr_st
    pr_this (snd (pr_read n st)) = [] -> pr_this_punct (snd (pr_read n st)) = false).
 Proof. split; [exact (pr_punct_wf_init s)|exact (pr_punct_wf_read n st)]. Qed.
 
+(* ReadUntilPunctuation (the frame sentences): the translated loop returns what pr_read_until says — the
+   sentence, ErrOverflow, io.ErrUnexpectedEOF or the source's error — and leaves the model's final reader state,
+   for every state, limit and source; the inner call p.Read(p.buf[:]) has the meaning
+   C13_source_punctuatedReader_Read proves (read_call_sound), with an oracle for what that theorem leaves
+   open (nil-or-empty slices, buffer bytes beyond the count).  pr_clean: the underlying reader does not
+   itself return saltpack's internal ErrPunctuated value (if it did, the Go switch would take it for the end
+   of a sentence; the model passes it on as an error).  The last two hypotheses bound the evaluator's fuel. *)
+Theorem C13_source_ReadUntilPunctuation (O : read_oracle) (F : nat) (z1 z2 : bool) (buf : bytes) (st : pr_state) (lim : Z) :
+  oracle_ok O -> List.length buf = 4096%nat ->
+  (pr_this st = [] -> pr_this_punct st = false) -> pr_clean st ->
+  (12 <= F)%nat -> (rup_need (Z.to_nat lim) st [] < F)%nat ->
+  let r := run_func2_at (S F) (ext_rup O) f_saltpack_punctuatedReader_ReadUntilPunctuation [g_pr z1 z2 buf st; VInt lim] in
+  let m := pr_read_until (S (rup_need (Z.to_nat lim) st [])) (Z.to_nat lim) st [] in
+  fst r = ORet (g_rup_result (fst m)) /\
+  exists z1' z2' buf', lookup "p" (snd r) = Some (g_pr z1' z2' buf' (snd m)) /\ List.length buf' = 4096%nat.
+Proof. exact (go_punctuatedReader_ReadUntilPunctuation O F z1 z2 buf st lim). Qed.
+
+Print Assumptions C13_source_ReadUntilPunctuation.
 Print Assumptions C13_source_chunkReader_Read.
 Print Assumptions C13_source_punctuatedReader_Read.
 Print Assumptions C13_source_punctuatedReader_invariant.
